@@ -24,6 +24,7 @@ PROPS['C02']={
  'obligations':[
    {'name':'step_authorization','module':'harness.C02','cls':'StepAuthorization','quick':{'nfun':2,'nsig':2},'thorough':{'nfun':3,'nsig':2,'unknown_pubkey':True}},
    {'name':'two_steps','module':'harness.C02','cls':'StepAuthorization','tier_only':'thorough','quick':{},'thorough':{'nfun':2,'nsig':1,'two_steps':True}},
+   {'name':'duplicate_step_names','module':'harness.C02','cls':'StepAuthorization','quick':{'nfun':2,'nsig':1,'same_name':True},'thorough':{'nfun':2,'nsig':2,'same_name':True}},
  ]}
 
 PROPS['C01']={
@@ -52,6 +53,7 @@ PROPS['C13']={
  'bounds_statement':'self-composition of in_toto_verify from MIR (reference run in insertion order vs. every permutation of every hash map) over 1-2 steps with 2-3 links per step that may differ, any u32 thresholds, free signature validity.',
  'assumptions':PIPE_ASSUME+['directory enumeration order is not varied (glob returns paths sorted; stated, not checked)'],
  'obligations':[{'name':'determinism','module':'harness.C13','cls':'Determinism','quick':{'nlinks':2},'thorough':{'nlinks':3}},
+                {'name':'determinism_3links','module':'harness.C13','cls':'Determinism','quick':{'nlinks':3,'all_valid':True,'rate':400},'thorough':{'nlinks':3,'all_valid':True,'rate':400}},
                 {'name':'determinism_two_steps','module':'harness.C13','cls':'Determinism','tier_only':'thorough','quick':{},'thorough':{'nlinks':2,'two_steps':True}}]}
 
 PROPS['C15']={
